@@ -90,8 +90,21 @@ func mergeStates(a, b *State) *State {
 		if vb, ok := b.vars[k]; ok {
 			if sameValue(va, vb) {
 				r.vars[k] = va
-			} else if mv, ok := tryMerge(c, va, vb); ok {
-				r.vars[k] = mv
+			} else {
+				// different heap objects on the two paths are merged as values
+				if ra, ok := va.(RefV); ok {
+					if rb, ok2 := vb.(RefV); !ok2 || ra.ID != rb.ID {
+						va = freezeFrom(a, ra)
+					}
+				}
+				if rb, ok := vb.(RefV); ok {
+					if ra, ok2 := va.(RefV); !ok2 || ra.ID != rb.ID {
+						vb = freezeFrom(b, rb)
+					}
+				}
+				if mv, ok := tryMerge(c, va, vb); ok {
+					r.vars[k] = mv
+				}
 			}
 			// an unmergeable variable is dropped: reading it later is reported as unsupported, never guessed
 		}
@@ -209,4 +222,17 @@ func tryMerge(c *Term, a, b Value) (v Value, ok bool) {
 		}
 	}()
 	return mergeValues(c, a, b), true
+}
+
+func freezeFrom(st *State, r RefV) Value {
+	o := st.heap[r.ID]
+	s := &StructV{T: r.T, Nil: tFalse, F: map[string]Value{}}
+	for k, fv := range o {
+		if rr, ok := fv.(RefV); ok {
+			s.F[k] = freezeFrom(st, rr)
+		} else {
+			s.F[k] = fv
+		}
+	}
+	return s
 }
